@@ -18,7 +18,7 @@ theorem C11_facts :
     ∧ ("CanonicalBlock", "BundleAgeBlock", "bind_type", (typeAge : Int)) ∈ Facts.binds
     ∧ ("CanonicalBlock", "HopCountBlock", "bind_type", (typeHop : Int)) ∈ Facts.binds
     ∧ (Facts.chainSteps.filter (fun s => s.1 == "tx_chain")).map (fun s => (s.2.1, s.2.2.2))
-        = [(0, "_do_tx_step"), (20, "_create"), (10, "_apply_bib"), (11, "_apply_bcb")] := by
+        = [(0, "_do_tx_step"), (10, "_apply_bib"), (11, "_apply_bcb"), (20, "_create")] := by
   decide
 
 /-- The octets `_do_fwd` hands to the convergence layer are `Bundle.enc` of `fwdOut`. -/
